@@ -1,4 +1,5 @@
 pub mod c01;
+pub mod c03;
 pub mod c19;
 pub mod selftest;
 
@@ -8,6 +9,7 @@ pub fn dispatch(name: &str, args: &[String]) -> i32 {
 	match name {
 		"selftest" => selftest::run(args),
 		"c01" => c01::run(args),
+		"c03" => c03::run(args),
 		"c19" => c19::run(args),
 		"replay" => replay(args),
 		_ => {
@@ -30,6 +32,7 @@ fn replay(args: &[String]) -> i32 {
 	println!("replaying {} — {}", v["key"], v["what"]);
 	match prop.as_str() {
 		"c01" => c01::replay(&v["replay"]),
+		"c03" => c03::replay(&v["replay"]),
 		"c19" => c19::replay(&v["replay"]),
 		_ => {
 			eprintln!("no replay handler for property {}", prop);
